@@ -55,6 +55,15 @@ FAILED, bystander unaffected) or replace the target; passing the task on with
 the old bytes is `target-wrong-content|<backend>.<op>|...:target-preexists`
 (the backend operation, run alone on an existing target, keeps it silently).
 
+Directories which come and go: part `dirs` lets a directive stage into a
+directory D (created on the way), has D moved away -- by a MOVE directive whose
+source is D (same list, or the other staging side of the task / of the next
+task), by the task itself between input and output staging, or by the
+application between two tasks -- and stages into D/... again, on the stager of
+one component: within one list (agent side, in and out) and across two tasks
+(`A;C`, all four components).  Judged by the clauses above: the later target
+holds its bytes, no task with legal directives is FAILED.
+
 Reference (A.9)
 ---------------
 `schema:///p` -> sandbox(schema)/p for client, task, pilot, session, resource,
@@ -110,6 +119,7 @@ directive agreeing on them fails -- one cause, one key.
 
 import os
 import glob
+import pprint
 import shutil
 import tempfile
 import itertools
@@ -260,15 +270,25 @@ class Directive(object):
         else              : self.tgt_loc, self.tgt_shape = None, None
 
         tok = os.path.basename(os.path.dirname(absdir))
-        self.src_text = text_for(self.src_loc,
-                                 rel_name('src', direction, idx,
-                                          self.src_shape, self.odd, tok),
-                                 absdir, self.odd)
+
+        def named(name):
+            # explicit name given by the case: `D/f1` -> D.<tok>/f1.<tok>
+            return '/'.join('%s.%s' % (e, tok) for e in name.split('/'))
+
+        # the source is a directory which an earlier directive created
+        self.isdir = bool(spec.get('isdir'))
+        src_rel = rel_name('src', direction, idx, self.src_shape, self.odd,
+                           tok)
+        if spec.get('src_name'):
+            src_rel = named(spec['src_name'])
+        self.src_text = text_for(self.src_loc, src_rel, absdir, self.odd)
         if self.tgt_loc:
             name = rel_name('tgt', direction, idx, self.tgt_shape, None, tok)
             if spec.get('share'):
                 # several tasks name the same target
                 name = 'shared_%s.%s.dat' % (direction, tok)
+            if spec.get('tgt_name'):
+                name = named(spec['tgt_name'])
             self.tgt_text = text_for(self.tgt_loc, name, absdir)
             self.exp_tgt_text = self.tgt_text
         else:
@@ -280,6 +300,13 @@ class Directive(object):
         self.tgt_path = resolve(self.exp_tgt_text, tpwd, sbx)
         self.content  = 'payload %s %d of %s via %s\n' % (direction, idx,
                                               self.src_text, self.action)
+        # where the staged bytes are when the target clause is evaluated: a
+        # later directive of the same list may move the directory D to Dm
+        self.check_path = self.tgt_path
+        if spec.get('follow'):
+            a, b = spec['follow']
+            self.check_path = self.tgt_path.replace('/%s/' % named(a),
+                                                    '/%s/' % named(b))
 
         # classes of input
         self.side       = side_of(self.action)
@@ -544,8 +571,7 @@ def bystander_spec():
                      'src' : ['pilot', 'flat'], 'tgt': ['rel', 'sub']},
                     {'form': 'dict', 'action': MOVE,
                      'src' : ['rel', 'sub'],    'tgt': ['task', 'flat']}],
-            'out': [{'form': 'str',  'src': ['rel', 'flat']},
-                    {'form': '<',    'src': ['task', 'flat'],
+            'out': [{'form': '<',    'src': ['rel', 'flat'],
                      'tgt' : ['rel', 'sub']},
                     {'form': 'dict', 'action': LINK,
                      'src' : ['rel', 'sub'],  'tgt': ['pilot', 'sub']},
@@ -563,6 +589,7 @@ class TaskModel(object):
         self.sbx     = w.task_sbx(self.uid, self.sandbox)
         self.outcome = getattr(rps, spec.get('outcome', 'DONE'))
         self.soe     = spec.get('soe', False)
+        self.spec    = spec
         self.pos     = pos                 # submitted first / later
         self.rank    = dict()              # working state -> first / later
         # every task's files get their own index range
@@ -709,16 +736,24 @@ def check_targets(part, w, tm, directives, replay, verbose, obs):
         if not d.carriable:
             continue
 
-        got  = read_file(d.tgt_path)
+        got  = read_file(d.check_path)
         what = None
-        if got is None:
+        if d.isdir:
+            # a directory was moved: it is at the target, and gone at the
+            # source unless a later directive staged into it again
+            got = 'directory' if os.path.isdir(d.tgt_path) else None
+            if got is None:
+                what = 'missing'
+            elif os.path.lexists(d.src_path) and not d.spec.get('recreated'):
+                what = 'source-not-removed'
+        elif got is None:
             what = 'missing'
         elif got != d.content:
             what = 'wrong-content'
         elif d.action == LINK and not d.degenerate:
             same = False
             try:
-                same = os.path.samefile(d.src_path, d.tgt_path)
+                same = os.path.samefile(d.src_path, d.check_path)
             except OSError:
                 pass
             if not same:
@@ -729,7 +764,7 @@ def check_targets(part, w, tm, directives, replay, verbose, obs):
 
         if verbose:
             print('  %s %s-target %-8s %-40r -> %s : %s'
-                  % (tm.uid, d.direction, d.action, d.as_input(), d.tgt_path,
+                  % (tm.uid, d.direction, d.action, d.as_input(), d.check_path,
                      what or 'ok'))
 
         if not d.refusable:
@@ -839,8 +874,14 @@ def aggregate(ctx, evals, fails, unst, multi):
     # failed tasks with several directives: explained by a failing single one?
     for (site, combos), (detail, replay) in sorted(multi.items()):
         if not any(('task-failed', site, c) in fails for c in combos):
-            ctx.violation('good-task-failed|%s|%s' % (site, '+'.join(
-                          '%s:%s:%s' % (c[0], c[4], c[5]) for c in combos)),
+            if any(c[-1] != '-' for c in combos):
+                # a history of directives: named by the roles they play
+                trig = '%s:%s' % (combos[0][0], '+'.join(
+                       c[-1] if c[-1] != '-' else c[4] for c in combos))
+            else:
+                trig = '+'.join('%s:%s:%s' % (c[0], c[4], c[5])
+                                for c in combos)
+            ctx.violation('good-task-failed|%s|%s' % (site, trig),
                           detail, replay)
 
     n        = len(ATTRS)
@@ -941,9 +982,14 @@ def check_case(part, case, scratch, verbose=False):
     root = tempfile.mkdtemp(prefix='c11.', dir=scratch)
     tok  = os.path.basename(root)
     cwd  = os.getcwd()
+    # logging seam: agent staging_output formats every task dict for a debug
+    # message (a fifth of the run time); the logger is a no-op anyway
+    pformat = pprint.pformat
+    pprint.pformat = lambda *args, **kwargs: ''
     try:
         return _check_case(part, case, root, verbose)
     finally:
+        pprint.pformat = pformat
         os.chdir(cwd)
         shutil.rmtree(root, ignore_errors=True)
         # anything a (mutated) stager wrote elsewhere under this case's names
@@ -1091,6 +1137,19 @@ def _check_case(part, case, root, verbose):
                 d.pre = os.path.lexists(d.tgt_path) and not d.degenerate \
                         and d.present
 
+    def app_moves(tm, when):
+        """the task itself (`exec_moves`, between input and output staging) or
+        the application (`after_moves`, after the task is final) renames a
+        directory: [location, name, new name]"""
+        tok = os.path.basename(root)
+        for loc, a, b in tm.spec.get(when, []):
+            src = '%s/%s.%s' % (tm.sbx[loc], a, tok)
+            tgt = '%s/%s.%s' % (tm.sbx[loc], b, tok)
+            if os.path.isdir(src) and not os.path.lexists(tgt):
+                os.rename(src, tgt)
+                if verbose:
+                    print('  %s: %s -> %s' % (when, src, tgt))
+
     seen = list()
 
     def run_round(groups):
@@ -1103,7 +1162,7 @@ def _check_case(part, case, root, verbose):
         for tm in tasks:
             os.makedirs(tm.sbx['task'], exist_ok=True)
             for d in tm.ins:
-                if d.present:
+                if d.present and not d.isdir:
                     write_file(d.src_path, d.content)
         preexisting(tasks, 'in')
 
@@ -1270,9 +1329,10 @@ def _check_case(part, case, root, verbose):
                 continue
             task = passed[tm.uid]
             for d in tm.outs:
-                if d.present:
+                if d.present and not d.isdir:
                     write_file(d.src_path, d.content)
             preexisting([tm], 'out')
+            app_moves(tm, 'exec_moves')
             task['state']        = rps.AGENT_STAGING_OUTPUT_PENDING
             task['target_state'] = tm.outcome
             if tm.outcome == rps.DONE:
@@ -1418,6 +1478,9 @@ def _check_case(part, case, root, verbose):
 
         foreign_data(part, w, seen, 'output', replay, verbose)
 
+        for tm in tasks:
+            app_moves(tm, 'after_moves')
+
         return True
 
     for groups in rounds:
@@ -1541,7 +1604,11 @@ def gen_cases(quick):
     # part pre: the target exists before staging, with other bytes
     for direction in ('in', 'out'):
         for d in single_directives(direction, full=not quick):
-            for order in (['AB'] if quick else ['AB', 'B,A']):
+            # (quick: a bystander only where the directive gets refused)
+            if not quick                : orders = ['AB', 'B,A']
+            elif d.get('action') == LINK: orders = ['AB']
+            else                        : orders = ['A']
+            for order in orders:
                 cases.append({'part': 'pre', direction: [dict(d, pre=True)],
                               'order': order})
 
@@ -1569,6 +1636,68 @@ def gen_cases(quick):
                                           order='A;C;D',
                                           more={'C': spec(a2, f2),
                                                 'D': spec(a3, f3)}))
+
+    # part dirs: a directory D is created by staging, moved away, and staged
+    # into again -- on the stager of one component
+    def into_d(action, loc, name, odd, form='dict', **kw):
+        d = dict(kw, form=form, src=['pilot', 'sub'], tgt=[loc, 'flat'],
+                 tgt_name=name, odd=odd)
+        if form == 'dict':
+            d['action'] = action
+        return d
+
+    def move_d(loc, **kw):
+        return dict(kw, form='dict', action=MOVE, isdir=True, odd='dir-move',
+                    src=[loc, 'flat'], src_name='D',
+                    tgt=[loc, 'flat'], tgt_name='Dm')
+
+    def shared(spec, loc):
+        if loc == 'task':
+            spec['sandbox'] = 'shared_sandbox'
+        return spec
+
+    # ... within one list of directives (agent side stagers)
+    for direction in ('in', 'out'):
+        for loc in ('pilot', 'session', 'task'):
+            for op1, op3 in itertools.product(AGENT_SIDE, AGENT_SIDE):
+                cases.append({'part': 'dirs', 'order': 'AB', direction: [
+                    into_d(op1, loc, 'D/f1', 'dir-first', follow=['D', 'Dm']),
+                    move_d(loc, recreated=True),
+                    into_d(op3, loc, 'D/f3', 'dir-again')]})
+
+    # ... across two tasks, input side: A stages into D; D is moved away by
+    # A's output directive / by A itself while it runs / by the application
+    # after A is done; C stages into D
+    for loc in ('pilot', 'session', 'task'):
+        for op1, op3 in itertools.product(ACTIONS, ACTIONS):
+            for mover in ('directive', 'task', 'app'):
+                a = {'in': [into_d(op1, loc, 'D/f1', 'dir-first')]}
+                if   mover == 'directive': a['out'] = [move_d(loc)]
+                elif mover == 'task'     : a['exec_moves']  = [[loc, 'D', 'Dm']]
+                else                     : a['after_moves'] = [[loc, 'D', 'Dm']]
+                c = {'in': [into_d(op3, loc, 'D/f3', 'dir-again')]}
+                cases.append(dict(shared(a, loc), part='dirs', order='A;C',
+                                  more={'C': shared(c, loc)}))
+
+    # ... across two tasks, output side: A stages out into D; D is moved away
+    # by C's input directive / by C itself while it runs / by the application
+    # before C is submitted; C stages out into D
+    for loc in ('pilot', 'session', 'task', 'client'):
+        if loc == 'client':
+            ops    = [(TRANSFER, 'dict'), (TRANSFER, '<')]
+            movers = ['app']
+        else:
+            ops    = [(a, 'dict') for a in AGENT_SIDE + [TRANSFER]]
+            movers = ['directive', 'task', 'app']
+        for (op1, f1), (op3, f3) in itertools.product(ops, ops):
+            for mover in movers:
+                a = {'out': [into_d(op1, loc, 'D/f1', 'dir-first', f1)]}
+                c = {'out': [into_d(op3, loc, 'D/f3', 'dir-again', f3)]}
+                if   mover == 'directive': c['in'] = [move_d(loc)]
+                elif mover == 'task'     : c['exec_moves']  = [[loc, 'D', 'Dm']]
+                else                     : a['after_moves'] = [[loc, 'D', 'Dm']]
+                cases.append(dict(shared(a, loc), part='dirs', order='A;C',
+                                  more={'C': shared(c, loc)}))
 
     # part seq3: three tasks one after the other through one world
     for direction in ('in', 'out'):
@@ -1715,7 +1844,11 @@ def run(ctx):
                  ' (same) 2%s tasks, staged and checked one after the other, '
                  'whose directives (5 actions + `f > g`) name the same target '
                  'in the pilot / session / resource sandbox or in a task '
-                 'sandbox shared via description.sandbox; (seq3) three tasks '
+                 'sandbox shared via description.sandbox; (dirs) a directory '
+                 'is created by a directive, moved away (by a MOVE directive of'
+                 ' the same list / of the other staging side, by the task '
+                 'itself, by the application) and staged into again, in one '
+                 'list and across two tasks, input and output; (seq3) three tasks '
                  'with one directive each through one world, one after the '
                  'other; (odd) file name with '
                  'space, `d/../f`, `../d/f`, host element, `f>g`, dict without '
